@@ -13,9 +13,10 @@ From CSL Require Import Base.Prelude Base.U64 Cbor.Head Num.Value Deposits.Depos
   FeeSuff.FeeModel FeeSuff.FeeSpec FeeSuff.FeeProofs.
 Local Open Scope N_scope.
 
-(* The full statement: every successful add_change (fee not fixed by the caller) stores a sufficient fee.
-   It is FALSE for the code as it is (C06_sufficient_refuted, C06_notless_refuted); the theorem that holds carries
-   the premise [slack_ok], a decidable condition computed by the model (the known class is its negation). *)
+(* THE FULL STATEMENT, for the code as repaired in /repo ("fix: add_change_if_needed fails when the fee it computed does
+   not cover the transaction it leaves": Change.check_fee_after_change at the end of the two change paths): every
+   successful add_change whose fee was not fixed by the caller stores a fee that covers the ledger minimum of the
+   transaction it leaves.  No slack premise. *)
 Definition C06_full : Prop :=
   forall (O : Type) (orc : @oracle O) (e : env), fee_exact e orc ->
   forall fuel addr extra b s s' (o o' : O),
@@ -23,42 +24,57 @@ Definition C06_full : Prop :=
     (forall y, s_fee_request s <> FeeExactly y) ->
     sufficient e s'.
 
-(* the fee add_change stores covers the ledger minimum of the transaction it leaves, provided the bytes by which
-   the final outputs and fee field exceed the outputs as priced fit the placeholder (9 bytes; the width of the
-   requested minimal fee when that request is binding) *)
-Theorem C06_sufficient :
-  forall (O : Type) (orc : @oracle O) (e : env), fee_exact e orc ->
-  forall fuel addr extra b s s' (o o' : O),
-    add_change orc fuel addr extra s o = mkOut (Ok b) s' o' ->
-    (forall y, s_fee_request s <> FeeExactly y) ->
-    slack_ok e orc fuel addr extra s o = true ->
-    sufficient e s'.
+Theorem C06_sufficient : C06_full.
 Proof. intros O orc e H. exact (add_change_fee_sufficient orc e H). Qed.
 Print Assumptions C06_sufficient.
 
-(* non-vacuity: mainnet-like parameters, 5000 ADA + a token: all premises hold, margin exactly 0 *)
+(* non-vacuity: mainnet-like parameters, 5000 ADA + a token: add_change succeeds, margin exactly 0 (old and new code) *)
 Check sufficient_premises_mainnet.
 
-(* the slack premise cannot be dropped: 100 lovelace per UTxO byte, no fee request *)
+(* the repaired add_change is the old one followed by the fee re-check on the paths that return true *)
+Theorem C06_fix_split :
+  forall (O : Type) (orc : @oracle O) fuel addr extra s (o : O),
+    add_change orc fuel addr extra s o = bindM (add_change_legacy orc fuel addr extra) (post_check orc) s o.
+Proof. exact @add_change_fix_split. Qed.
+Print Assumptions C06_fix_split.
+
+(* ---- the code before the repair (FeeSpec.add_change_legacy) ---- *)
+
+(* its fee covers the minimum provided the bytes by which the final outputs and fee field exceed the outputs as priced
+   fit the placeholder (9 bytes; the width of the requested minimal fee when that request is binding) *)
+Theorem C06_legacy_sufficient :
+  forall (O : Type) (orc : @oracle O) (e : env), fee_exact e orc ->
+  forall fuel addr extra b s s' (o o' : O),
+    add_change_legacy orc fuel addr extra s o = mkOut (Ok b) s' o' ->
+    (forall y, s_fee_request s <> FeeExactly y) ->
+    slack_ok e orc fuel addr extra s o = true ->
+    sufficient e s'.
+Proof. intros O orc e H. exact (add_change_legacy_fee_sufficient orc e H). Qed.
+Print Assumptions C06_legacy_sufficient.
+
+(* the slack premise could not be dropped: 100 lovelace per UTxO byte, no fee request (fixed finding C06-topup-width) *)
 Theorem C06_sufficient_refuted :
   exists (e : env) (orc : @oracle unit) fuel addr extra s b s' o',
     fee_exact e orc /\ s_fee_request s = FeeUnspecified /\
-    add_change orc fuel addr extra s tt = mkOut (Ok b) s' o' /\
+    add_change_legacy orc fuel addr extra s tt = mkOut (Ok b) s' o' /\
     slack_ok e orc fuel addr extra s tt = false /\ ~ sufficient e s'.
-Proof. exact sufficient_refuted. Qed.
+Proof. exact legacy_sufficient_refuted. Qed.
 Print Assumptions C06_sufficient_refuted.
 
-(* ... nor under a binding requested minimal fee *)
+(* ... nor under a binding requested minimal fee (fixed finding C06-notless-width) *)
 Theorem C06_notless_refuted :
   exists (e : env) (orc : @oracle unit) fuel addr extra s r b s' o',
     fee_exact e orc /\ s_fee_request s = FeeNotLess r /\ binding e s = true /\
-    add_change orc fuel addr extra s tt = mkOut (Ok b) s' o' /\
+    add_change_legacy orc fuel addr extra s tt = mkOut (Ok b) s' o' /\
     slack_ok e orc fuel addr extra s tt = false /\ ~ sufficient e s'.
-Proof. exact notless_refuted. Qed.
+Proof. exact legacy_notless_refuted. Qed.
 Print Assumptions C06_notless_refuted.
 
-(* the pricing phase (add_change up to, not including, the top-up of the last output): the stored fee is an aligned
-   figure and covers the transaction AS PRICED with a fee field of the placeholder width *)
+(* the repaired add_change fails on both witnesses *)
+Check fixed_refuses_witnesses.
+
+(* the pricing phase (the old add_change up to, not including, the top-up of the last output): the stored fee is an
+   aligned figure and covers the transaction AS PRICED with a fee field of the placeholder width *)
 Theorem C06_priced :
   forall (O : Type) (orc : @oracle O) (e : env), fee_exact e orc ->
   forall fuel addr extra bg s s1 (o o1 : O),
@@ -72,10 +88,10 @@ Theorem C06_priced :
 Proof. intros O orc e H. exact (add_change_pre_spec orc e H). Qed.
 Print Assumptions C06_priced.
 
-(* add_change is the pricing phase followed by the top-up *)
+(* the old add_change is the pricing phase followed by the top-up *)
 Theorem C06_split :
   forall (O : Type) (orc : @oracle O) fuel addr extra s (o : O),
-    add_change orc fuel addr extra s o = bindM (add_change_pre orc fuel addr extra) (finish_change orc) s o.
+    add_change_legacy orc fuel addr extra s o = bindM (add_change_pre orc fuel addr extra) (finish_change orc) s o.
 Proof. exact @add_change_split. Qed.
 Print Assumptions C06_split.
 
